@@ -262,6 +262,7 @@ pub fn new_interp(cfg: &RefCfg, sources: &[(String, ModuleSrc)]) -> (Rc<Shared>,
         ranges: RefCell::new(Vec::new()),
         pending_finally: Cell::new(0),
         e11_armed: Cell::new(false),
+        text_bytes: Cell::new(0),
         fibers: RefCell::new(Vec::new()),
         cells: RefCell::new(Vec::new()),
         instances: RefCell::new(Vec::new()),
